@@ -383,6 +383,45 @@ func c12Race(a, b, iters int64) []int64 {
 
 var c12Cache sync.Map
 
+// mode 2, scenario 101: the callbacks of GetWithLock (read lock) and Map (write lock) run while the call holds the lock: a
+// writer (for Map: also a reader) started from inside the callback cannot finish before the callback returns.  One-sided:
+// on a correct SafeKV the other call can never finish during the callback, however long the wait; [0] = it never did.
+func c12CallbackHoldsLock(rounds int) []int64 {
+	if rounds < 1 || rounds > 200 {
+		return []int64{BADCASE}
+	}
+	bad := 0
+	for i := 0; i < rounds; i++ {
+		s := mapz.NewSafeKV[int64, int64](0)
+		s.Set(1, 10)
+		finished := func(f func()) bool {
+			done := make(chan struct{})
+			go func() { f(); close(done) }()
+			select {
+			case <-done:
+				return true
+			case <-time.After(3 * time.Millisecond):
+				return false
+			}
+		}
+		s.GetWithLock(1, func(v int64) {
+			if finished(func() { s.Set(2, 20) }) {
+				bad++
+			}
+		})
+		s.Map(func(m mapz.KV[int64, int64]) {
+			if finished(func() { s.Get(1) }) || finished(func() { s.Set(3, 30) }) {
+				bad++
+			}
+		})
+		time.Sleep(200 * time.Microsecond)
+	}
+	if bad != 0 {
+		return []int64{2}
+	}
+	return []int64{0}
+}
+
 // mode 2, scenario 100: the map is filled with nk thousand keys and then emptied to a tenth by Delete calls of 500 keys
 // (whatever the implementation does when a large map has shrunk - rebuild, compaction - happens here), while four
 // writers work on keys of their own that nobody else touches: Set then Get must read the value just written, Delete
@@ -482,6 +521,9 @@ func c12Impl(in []int64) []int64 {
 		}
 		if in[1] == 100 {
 			return c12HighWater(int(in[2]), int(in[3]))
+		}
+		if in[1] == 101 {
+			return c12CallbackHoldsLock(int(in[3]))
 		}
 		return c12Race(in[1], in[2], in[3])
 	case 3:
@@ -718,6 +760,9 @@ func c12Gen(c *Ctx) {
 		}
 		t.Try("race-pair", pairs[i], true)
 	})
+	c.Each(1, func(i int, t *T) {
+		t.Try("callbacks-run-under-the-lock", []int64{2, 101, 0, int64(c.N(20, 150))}, true)
+	})
 	for _, nk := range []int64{3, 70, 140} {
 		t0 := []int64{2, 100, nk, int64(c.N(3, 12))}
 		c.Each(1, func(i int, t *T) { t.Try("own-key-writers-while-a-large-map-shrinks", t0, true) })
@@ -810,6 +855,9 @@ func c12Describe(in []int64) string {
 		return "?"
 	case 2:
 		if len(in) == 4 {
+			if in[1] == 101 {
+				return fmt.Sprintf("%d rounds: a Set started from inside the callback of GetWithLock, a Get and a Set started from inside the callback of Map (impl output 0 = none of them finished before the callback returned, 2 = one did)", in[3])
+			}
 			if in[1] == 100 {
 				return fmt.Sprintf("a SafeKV filled with %d000 keys is emptied to a tenth by Delete calls of 500 keys while 4 writers Set/Get/Delete/Has/SetNx keys of their own, %d rounds (impl output 0 = every writer read its own writes, 2 = a writer did not)", in[2], in[3])
 			}
